@@ -261,8 +261,9 @@ def run_family(exe, family, args=(), seed=1, tier="quick", timeout=900, extra_en
     p = subprocess.run([exe, family] + list(args), env=env, stdout=subprocess.PIPE, stderr=subprocess.PIPE, timeout=timeout)
     cases = []
     bad = []
-    for line in p.stdout.decode("utf-8", "replace").splitlines():
-        line = line.strip()
+    # one record per "\n"-terminated line; str.splitlines() would also split at U+0085 / U+2028 inside JSON strings
+    for raw in p.stdout.split(b"\n"):
+        line = raw.decode("utf-8", "replace").strip(" \t\r\n")
         if not line:
             continue
         try:
